@@ -209,6 +209,28 @@ def refers_exh(F, kind):
                 if not ok:
                     r.violate("%s | key/target %s←map[%s]" % (upd["path"], tplace, kplace), F.loc(upd, a),
                               "%s rewrites `%s` with the mapping of `%s`: the %s index is replaced by another operand's new index" % (names[1], tplace, kplace, kind))
+    # closure form: `let remap = |m| match mapping.get(&m) {..}; *T = remap(*K);`
+    remap_closures = set()
+    for st in walk(m2):
+        if st.get("k") == "Let" and st["pat"].get("k") == "Binding" and isinstance(st.get("init"), dict) and peel(st["init"]).get("k") == "Closure":
+            clo = peel(st["init"])
+            ph_ = {b["hid"] for p_ in clo.get("params", []) for b in walk(p_) if b.get("k") == "Binding"}
+            if len(ph_) == 1 and any(x.get("k") == "MethodCall" and x.get("method") == "get" and x.get("args") and
+                                     any(y.get("k") == "Path" and y.get("res", {}).get("hid") in ph_ for y in walk(x["args"][0])) for x in walk(clo["body"])):
+                remap_closures.add(st["pat"]["hid"])
+    for a in walk(m2):
+        if a.get("k") != "Assign":
+            continue
+        rhs = peel(a["rhs"])
+        f_ = peel(rhs.get("f") or {}) if rhs.get("k") == "Call" else {}
+        if f_.get("k") == "Path" and f_.get("res", {}).get("hid") in remap_closures and rhs.get("args"):
+            kplace, tplace = place_path(rhs["args"][0]), place_path(a["lhs"])
+            n_pairs += 1
+            ok = kplace is not None and kplace == tplace
+            r.ob(ok, {"lookup_key": kplace, "rewritten": tplace})
+            if not ok:
+                r.violate("%s | key/target %s←map[%s]" % (upd["path"], tplace, kplace), F.loc(upd, a),
+                          "%s rewrites `%s` with the mapping of `%s`: the %s index is replaced by another operand's new index" % (names[1], tplace, kplace, kind))
     r.count("lookup_rewrite_pairs", n_pairs)
 
     for v, fields in sorted(need.items()):
